@@ -22,11 +22,11 @@ import (
 // ChunkReader delivers data in the scripted chunk sizes (the last size
 // repeats); it is the simulated pipe / packet layer in front of a filter.
 type ChunkReader struct {
-	Data        []byte
-	Sizes       []int
-	EOFWithData bool // deliver the final bytes together with io.EOF
+	Data         []byte
+	Sizes        []int
+	EOFWithData  bool // deliver the final bytes together with io.EOF
 	pos, i, used int
-	Reads       int
+	Reads        int
 }
 
 func (r *ChunkReader) Read(p []byte) (int, error) {
